@@ -1,7 +1,11 @@
 """C19 failing-input search: figures from show(..., backend='plotly', return_fig=True) — every drawn vertex of a
 magnet mapped back through (unit factor, pose of some displayed path index) must lie on the body's surface and
 the drawn vertices must span its full extent; current lines pass through the conductor's points; the path line
-passes through the path positions; nothing (objects, styles, defaults) is modified by displaying."""
+passes through the path positions; nothing (objects, styles, defaults) is modified by displaying.
+mapback_section: Tetrahedron / Triangle / TriangularMesh (vertex sets, outward winding), CylinderSegment (radii, height, azimuth
+range, corners), Dipole (arrow along the moment through the position, pivot), Sensor (pixel markers, axes glyph) mapped back through
+every displayed pose.  units_section: every length-unit prefix (case-sensitive: Mm / mm, Pm / pm ...) announced in the axis titles and
+applied as 10^-power to the drawn coordinates."""
 import copy
 import warnings
 
@@ -33,6 +37,54 @@ def surf_dist(cls, kw, p):
     if cls == "Sphere":
         return np.abs(np.linalg.norm(p, axis=1) / (kw["diameter"] / 2) - 1)
     raise ValueError(cls)
+
+
+def mesh_parts(fig):
+    """[(vertices (k,3) as drawn, faces (f,3), facecolor array or None)] of the Mesh3d traces of a plotly figure"""
+    out = []
+    for t in fig.data:
+        if type(t).__name__ != "Mesh3d" or t.x is None:
+            continue
+        V = np.stack([np.asarray(t.x, float), np.asarray(t.y, float), np.asarray(t.z, float)], axis=1)
+        F = np.stack([np.asarray(t.i, int), np.asarray(t.j, int), np.asarray(t.k, int)], axis=1) if t.i is not None else np.zeros((0, 3), int)
+        fc = np.asarray(t.facecolor, dtype=object) if getattr(t, "facecolor", None) is not None else None
+        out.append((V, F, fc))
+    return out
+
+
+def used_vertices(parts):
+    """the vertices that some face refers to (vertices no face uses are not rendered), all Mesh3d traces together"""
+    got = [V[np.unique(F)] for V, F, _ in parts if len(F)]
+    return np.concatenate(got) if got else np.zeros((0, 3))
+
+
+def far_from(A, B):
+    """largest distance of a row of A to its nearest row of B (inf when B is empty, 0 when A is empty)"""
+    if len(A) == 0:
+        return 0.0
+    if len(B) == 0:
+        return float("inf")
+    return float(np.max(np.min(np.linalg.norm(A[:, None, :] - B[None, :, :], axis=2), axis=1)))
+
+
+def signed_volume(V, F):
+    """sum over the faces of the signed volumes of the pyramids (reference point, face): the enclosed volume when the
+    mesh is closed and every face is wound counter-clockwise seen from outside; the reference point (the vertex mean)
+    only matters when the mesh is not closed"""
+    P = V - V[np.unique(F)].mean(axis=0)
+    return float(np.einsum("ij,ij->i", P[F[:, 0]], np.cross(P[F[:, 1]], P[F[:, 2]])).sum() / 6)
+
+
+def face_components(F, nvert):
+    """connected components (lists of vertex indices) of the vertices used by the faces F"""
+    from scipy.sparse import coo_matrix
+    from scipy.sparse.csgraph import connected_components
+
+    a = np.concatenate([F[:, 0], F[:, 1], F[:, 2]])
+    b = np.concatenate([F[:, 1], F[:, 2], F[:, 0]])
+    _, lab = connected_components(coo_matrix((np.ones(len(a)), (a, b)), shape=(nvert, nvert)), directed=False)
+    used = np.unique(F)
+    return [used[lab[used] == c] for c in np.unique(lab[used])]
 
 
 def sweep(ctx, n):
@@ -230,4 +282,329 @@ def sweep(ctx, n):
             if centres is None or centres != want:
                 bad("frames-list", f"with style_path_frames={frames} on a path of length {m} the object is not drawn at the poses of indices {[min(f, m - 1) for f in frames]}",
                     {"frames": frames, "path_length": m, "drawn_centres": centres, "expected_centres": want})
+        done += mapback_section(magpy, rng, n, bad, kinds)
+        done += units_section(magpy, rng, bad, kinds)
     return fails, {"c19_figures": done, "c19_kinds": kinds}
+
+
+UNITS = {"m": 1.0, "mm": 1e3, "km": 1e-3, "cm": 1e2}
+MAPBACK = ["Tetrahedron", "Triangle", "TriangularMesh", "CylinderSegment", "Dipole", "Sensor"]
+# colours given to the sensors of the mapback section so that the parts of the merged sensor mesh can be told apart by facecolor
+PIX_COL, AX_COLS = "#010203", {"x": "#fe0102", "y": "#01fe02", "z": "#0102fe"}
+
+
+def mapback_section(magpy, rng, n, bad, kinds):
+    """Tetrahedron, Triangle, TriangularMesh, CylinderSegment, Dipole, Sensor: what is drawn (plotly, all path frames, a random
+    length unit, bare or inside a Collection), divided by the unit factor and mapped back through EVERY displayed pose j
+    (loc = ori[j]^-1 (V - pos[j])), is the object's own geometry.  Glyphs that are not the body are switched off by style
+    keywords (orientation arrows of Triangle / TriangularMesh are a second Mesh3d trace: style_orientation_show=False; with
+    the plotly backend the magnetization is shown as a colour gradient on the body, not as an arrow; grid / open / disconnected /
+    selfintersecting markers of a TriangularMesh are Scatter3d traces and are switched off too); only Mesh3d traces are read."""
+    from scipy.spatial import ConvexHull
+    from oracles.sources import CUBE12
+
+    done = 0
+    for k in range(max(2 * len(MAPBACK), n // 2)):
+        nps = np.random.default_rng(rng.randrange(2**31))
+        cls, rnd = MAPBACK[k % len(MAPBACK)], k // len(MAPBACK)
+        u = nps.uniform
+        m = rng.choice([1, 2, 3])
+        pos, ori = u(-3, 3, (m, 3)), R.random(m, rng=nps)
+        unit = rng.choice(list(UNITS))
+        f = UNITS[unit]
+        inner = rng.random() < 0.4
+        show_kw, note, vol = {}, {}, None
+        if cls == "Tetrahedron":
+            while True:
+                v = u(-1, 1, (4, 3))
+                if abs(np.linalg.det(v[1:] - v[0])) > 0.2:
+                    break
+            if (np.linalg.det(v[1:] - v[0]) > 0) != bool(rnd % 2):  # both chiralities of the vertex order, alternating
+                v = v[[0, 1, 3, 2]]
+            note["right_handed"] = bool(np.linalg.det(v[1:] - v[0]) > 0)
+            kw = dict(vertices=v, polarization=u(-1, 1, 3))
+            obj, want, vol = magpy.magnet.Tetrahedron(**kw), v, abs(np.linalg.det(v[1:] - v[0])) / 6
+        elif cls == "Triangle":
+            while True:
+                v = u(-1, 1, (3, 3))
+                if np.linalg.norm(np.cross(v[1] - v[0], v[2] - v[0])) > 0.3:
+                    break
+            # a generic polarization (when it is exactly normal to the facet the code deliberately draws a thin double layer instead)
+            kw = dict(vertices=v, polarization=u(-1, 1, 3))
+            obj, want, show_kw = magpy.misc.Triangle(**kw), v, dict(style_orientation_show=False)
+        elif cls == "TriangularMesh":
+            show_kw = dict(style_orientation_show=False, style_mesh_grid_show=False, style_mesh_open_show=False,
+                           style_mesh_disconnected_show=False, style_mesh_selfintersecting_show=False)
+            if rnd % 2 == 0:  # the convex hull of random points (points inside the hull are kept as vertices no face uses)
+                while True:
+                    pts = u(-1, 1, (int(nps.integers(5, 11)), 3)) * u(0.5, 1.5, 3)
+                    hull = ConvexHull(pts)
+                    if hull.volume > 0.2:
+                        break
+                kw = dict(points=pts, polarization=u(-1, 1, 3))
+                obj, want, vol = magpy.magnet.TriangularMesh.from_ConvexHull(**kw), pts[hull.vertices], hull.volume
+                note["from"] = "ConvexHull"
+            else:  # a box given by vertices and faces
+                d = u(0.5, 1.5, 3)
+                verts = np.array([[x, y, z] for x in (-1, 1) for y in (-1, 1) for z in (-1, 1)]) * d / 2 + u(-0.3, 0.3, 3)
+                kw = dict(vertices=verts, faces=CUBE12, polarization=u(-1, 1, 3))
+                obj, want, vol = magpy.magnet.TriangularMesh(**kw), verts, float(np.prod(d))
+                note["from"] = "box"
+        elif cls == "CylinderSegment":
+            r1 = 0.0 if (rnd % 4 == 0 or rng.random() < 0.25) else u(0.2, 0.9)
+            r2, h = r1 + u(0.3, 1), u(0.5, 2)
+            if rnd % 4 == 1:  # the full ring: phi2 - phi1 = 360 exactly (whole degrees)
+                p1 = float(nps.integers(-360, 1))
+                p2 = p1 + 360.0
+            else:
+                p1 = u(-360, 330)
+                p2 = p1 + u(10, min(359, 360 - p1))
+            kw = dict(dimension=(r1, r2, h, p1, p2), polarization=u(-1, 1, 3))
+            obj = magpy.magnet.CylinderSegment(**kw)
+        elif cls == "Dipole":
+            while True:  # a moment along no coordinate axis or plane: every component at least 10 % of its length
+                mom = u(-1, 1, 3)
+                if np.min(np.abs(mom)) > 0.1 * np.linalg.norm(mom):
+                    break
+            pivot = rng.choice([None, "middle", "tail", "tip"])
+            kw = dict(moment=mom, **({} if pivot is None else {"style_pivot": pivot}))
+            obj = magpy.misc.Dipole(**kw)
+        else:
+            a, b = rng.choice([1, 2, 3]), rng.choice([1, 2, 3])
+            pix = None if rnd % 3 == 2 else u(-1, 1, (a, b, 3)) * rng.choice([2e-3, 5e-3, 0.5, 2.0])  # a few mm / m
+            kw = dict(pixel=pix, handedness=rng.choice(["left", "right"]))
+            obj = magpy.Sensor(**kw, style_pixel_color=PIX_COL, **{f"style_arrows_{c}_color": v for c, v in AX_COLS.items()})
+        obj.position, obj.orientation = pos, ori
+        top = magpy.Collection(obj, position=(0, 0, 0)) if inner else obj
+        rep = {"class": cls, "kw": {k_: (None if v_ is None else np.asarray(v_).tolist()) for k_, v_ in kw.items()}, "positions": pos.tolist(),
+               "quaternions": ori.as_quat().tolist(), "unit": unit, "in_collection": inner, "show_kw": show_kw, **note}
+        before = snap_obj(obj)
+        fig = magpy.show(top, backend="plotly", return_fig=True, style_path_frames=1, units_length=unit, **show_kw)
+        done += 1
+        kinds["mapback:" + cls] = kinds.get("mapback:" + cls, 0) + 1
+        if snap_obj(obj) != before:
+            bad(f"show-mutates:{cls}", "show() modified the object or its style", rep)
+        parts = mesh_parts(fig)
+        if not parts:
+            bad(f"mapback:{cls}:no-mesh", "no Mesh3d trace is drawn for the object", rep)
+            continue
+
+        def back(P, j):
+            return ori[j].inv().apply(P - pos[j])
+
+        # Rounding: coordinates are O(5) (positions within +-3, bodies within +-2), every step (rotate, translate, scale by the unit
+        # factor and back) is good to a few 1e-16 relative, so residuals are ~1e-15; 1e-9 * scale leaves six orders of margin and
+        # is far below any modelling error (a wrong dimension, pose or unit is off by >= 1e-3)
+        scale = max(1.0, float(np.abs(pos).max()))
+        tol = 1e-9 * scale
+        D = used_vertices(parts) / f  # what is rendered (vertices that a face uses), in metres
+        if len(D) == 0:
+            bad(f"mapback:{cls}:no-mesh", "the Mesh3d trace of the object has no faces", rep)
+            continue
+        if cls in ("Tetrahedron", "Triangle", "TriangularMesh"):
+            # (1) every vertex of the object (for a convex hull: every hull vertex of the input points), placed at EVERY displayed
+            #     pose, coincides with a drawn vertex (distance <= 1e-9 * scale)
+            for j in range(m):
+                miss = far_from(ori[j].apply(want) + pos[j], D)
+                if miss > tol:
+                    bad(f"mapback:{cls}:vertex-missing", f"a vertex of the object at path index {j} is not among the drawn vertices (nearest drawn vertex {miss:.3g} m away)",
+                        {**rep, "path_index": j})
+                    break
+            # (2) every drawn vertex that a face uses, mapped back through some displayed pose, is a vertex of the object (same tolerance)
+            dmin = np.min([np.min(np.linalg.norm(back(D, j)[:, None, :] - want[None, :, :], axis=2), axis=1) for j in range(m)], axis=0)
+            if dmin.max() > tol:
+                bad(f"mapback:{cls}:vertex-extra", f"a drawn vertex is not a vertex of the object at any displayed pose (off by {dmin.max():.3g} m)", rep)
+            # (3) closed bodies: the drawn faces enclose the body's volume once per displayed pose with outward winding, i.e. the sum of the
+            #     signed pyramid volumes over all drawn faces is m * volume.  One inward face changes the sum by O(volume); terms are
+            #     O(100) with 1e-14 rounding each, volumes are > 0.03, so 1e-8 relative is safe on both sides
+            if vol is not None:
+                got = sum(signed_volume(V / f, F) for V, F, _ in parts if len(F))
+                if abs(got - m * vol) > 1e-8 * m * vol:
+                    bad(f"mapback:{cls}:winding", f"the drawn faces enclose a signed volume of {got:.9g} m^3 instead of {m} x {vol:.9g} m^3 (faces not closed / not all wound outward)",
+                        {**rep, "signed_volume": got, "expected": m * vol})
+        elif cls == "CylinderSegment":
+            w = p2 - p1
+            # every drawn vertex, mapped back through some displayed pose, lies on the inner or outer radius (|r - r1| or |r - r2| <= 1e-9 r2),
+            # on the top or bottom plane (||z| - h/2| <= 1e-9 h) and within the angular range: (azimuth - phi1) mod 360 in [0, phi2 - phi1]
+            # up to 1e-7 degrees (atan2 of coordinates with ~1e-15 absolute rounding at radius >= 0.2 gives ~1e-12 degrees); vertices on the
+            # axis (r1 = 0) have no azimuth.  score = the largest of the three residuals in units of its tolerance, best over the poses
+            score, comp = np.full(len(D), np.inf), np.zeros(len(D), int)
+            for j in range(m):
+                loc = back(D, j)
+                rr = np.hypot(loc[:, 0], loc[:, 1])
+                res_r = np.minimum(np.abs(rr - r1), np.abs(rr - r2)) / r2 / 1e-9
+                res_z = np.abs(np.abs(loc[:, 2]) - h / 2) / h / 1e-9
+                dphi = (np.degrees(np.arctan2(loc[:, 1], loc[:, 0])) - p1) % 360.0
+                res_a = np.where(rr <= 1e-9 * r2, 0.0, np.where(dphi <= w, 0.0, np.minimum(dphi - w, 360.0 - dphi))) / 1e-7
+                res = np.stack([res_r, res_z, res_a])
+                s_ = res.max(axis=0)
+                comp[s_ < score] = res.argmax(axis=0)[s_ < score]
+                score = np.minimum(score, s_)
+            if score.max() > 1:
+                what = ["radius", "height", "azimuth"][comp[score.argmax()]]
+                bad(f"mapback:CylinderSegment:{what}", f"a drawn vertex, mapped back through the pose, is not on the segment's boundary: {what} off by {score.max():.3g} tolerances", rep)
+            # the 8 corners (r1|r2, phi1|phi2, +-h/2), placed at EVERY displayed pose, are drawn vertices (distance <= 1e-9 * scale)
+            C = np.array([[r * np.cos(np.radians(p)), r * np.sin(np.radians(p)), z] for r in (r1, r2) for p in (p1, p2) for z in (-h / 2, h / 2)])
+            for j in range(m):
+                miss = far_from(ori[j].apply(C) + pos[j], D)
+                if miss > tol:
+                    bad("mapback:CylinderSegment:corner-missing", f"a corner (r1|r2, phi1|phi2, +-h/2) of the segment at path index {j} is not a drawn vertex (nearest {miss:.3g} m away)",
+                        {**rep, "path_index": j})
+                    break
+        elif cls == "Dipole":
+            # make_Dipole draws a Mesh3d arrow (cone + shaft, make_Arrow) of a length set by the scene size, turned from +z onto the moment
+            # and anchored according to style.pivot; default pivot read from the defaults at run time ("middle")
+            eff = pivot if pivot is not None else magpy.defaults.display.style.dipole.pivot
+            V = parts[0][0] / f
+            nv = mom / np.linalg.norm(mom)
+            if len(parts) != 1 or len(V) % m or len(V) == 0:
+                bad("mapback:Dipole:arrow-count", f"{len(parts)} Mesh3d traces with {len(V)} vertices for {m} displayed poses: not one arrow per pose", rep)
+                continue
+            chunks = V.reshape(m, -1, 3)  # one copy of the arrow per displayed pose (equal vertex counts); which copy belongs to which pose is not assumed
+
+            def arrow_residual(P, j):
+                """(angle between the arrow's axis and the moment, distance of the axis from the position, pivot offset) / tolerance"""
+                loc = back(P, j)
+                s_ = loc @ nv
+                L = s_.max() - s_.min()
+                if not L > 0:
+                    return {"degenerate": np.inf}
+                tip = loc[s_.argmax()]  # the apex of the cone: the extreme vertex along the moment
+                tail = loc[s_ <= s_.min() + 1e-6 * L].mean(axis=0)  # centre of the tail cap: mean of the extreme vertices against the moment
+                ax = tip - tail
+                t_ = 1e-9 * max(scale, L)
+                piv = {"middle": abs(s_.max() + s_.min()) / 2, "tail": abs(s_.min()), "tip": abs(s_.max())}[eff]
+                return {
+                    # the axis (tail-cap centre -> apex) is parallel to the moment and points the same way: sin(angle) < 1e-6
+                    # (make_Dipole builds the turn from arccos of the z component; with every |component| >= 0.1 that is good to ~1e-15)
+                    "direction": (np.linalg.norm(np.cross(ax, nv)) / np.linalg.norm(ax) if ax @ nv > 0 else np.inf) / 1e-6,
+                    # both the apex and the tail-cap centre lie on the line through the object's position along the moment
+                    "axis-off-position": max(np.linalg.norm(tip - (tip @ nv) * nv), np.linalg.norm(tail - (tail @ nv) * nv)) / t_,
+                    # pivot: "middle" = the extent along the moment is centred on the position, "tail" / "tip" = that end is at the position
+                    "pivot": piv / t_,
+                }
+            for j in range(m):
+                cand = [arrow_residual(c_, j) for c_ in chunks]
+                best = min(cand, key=lambda r_: max(r_.values()))
+                if max(best.values()) > 1:
+                    what = max(best, key=best.get)
+                    bad(f"mapback:Dipole:{what}", f"no drawn arrow is along the moment through the position (pivot {eff!r}) at path index {j}: {what} off by {best[what]:.3g} tolerances",
+                        {**rep, "path_index": j, "pivot": eff})
+                    break
+        else:
+            # make_Sensor merges into ONE Mesh3d: the axes glyph (98 template vertices; every template vertex inside the unit cube — the centre
+            # cube and the inner ends of the three shafts — is collapsed onto the origin, the rest is scaled by one common length), one cube
+            # per pixel (always cubes; side = half the smallest pixel distance x style.pixel.size; no pixel-count limit; none when pixel is
+            # None or size 0) and the pixels' bounding box.  Faces carry facecolor, by which the parts are told apart here.
+            if len(parts) != 1 or parts[0][2] is None:
+                bad("mapback:Sensor:structure", "the sensor is not drawn as one Mesh3d trace with face colours", rep)
+                continue
+            V, F, fc = parts[0]
+            V = V / f
+            psz = 0.0 if pix is None else float(np.abs(pix).max())
+            tol_s = 1e-9 * max(scale, psz)
+            if pix is not None:
+                P = pix.reshape(-1, 3)
+                Fp = F[fc == PIX_COL]
+                cubes = face_components(Fp, len(V)) if len(Fp) else []
+                cent = np.array([V[c_].mean(axis=0) for c_ in cubes]) if cubes else np.zeros((0, 3))
+                # for every pixel p and every displayed pose j a pixel cube (a connected component of the pixel-coloured faces) is drawn whose
+                # vertex centroid is ori[j] p + pos[j]; and there are exactly (pixels x poses) cubes of 8 vertices, each centred on such a point
+                for j in range(m):
+                    miss = far_from(ori[j].apply(P) + pos[j], cent)
+                    if miss > tol_s:
+                        bad("mapback:Sensor:pixel", f"no pixel marker is centred on a pixel's position at path index {j} (nearest marker centre {miss:.3g} m away)", {**rep, "path_index": j})
+                        break
+                allp = np.concatenate([ori[j].apply(P) + pos[j] for j in range(m)])
+                if len(cubes) != m * len(P) or any(len(c_) != 8 for c_ in cubes) or far_from(cent, allp) > tol_s:
+                    bad("mapback:Sensor:pixel-extra", f"{len(cubes)} pixel markers for {len(P)} pixels at {m} poses, or a marker that is not centred on a pixel", rep)
+            # axes: (a) the sensor position is a vertex of the glyph at every displayed pose (where the three shafts start);
+            #       (b) for each axis c, of the vertices of the faces in that axis' colour mapped back through pose j, those ON the local c axis
+            #           (|perpendicular part| <= tol; vertices of other poses' copies are generically off it) are: at least one at the origin (the
+            #           arrow starts at the sensor position) and otherwise only points s t e_c with t > 0, the farthest being the apex s L e_c;
+            #           s = +1 except for the x axis of a left-handed sensor (drawn along -x: handedness 'left' flips the x axis);
+            #           L is the same for the three axes (rel 1e-9; the glyph is scaled by one common length)
+            Fg = F[fc != PIX_COL]
+            G = V[np.unique(Fg)] if len(Fg) else np.zeros((0, 3))
+            for j in range(m):
+                if far_from(pos[j][None, :], G) > tol_s:
+                    bad("mapback:Sensor:axes-origin", f"the sensor position at path index {j} is not a vertex of the axes glyph (the arrows do not start there)", {**rep, "path_index": j})
+                    break
+                Ls, why = [], None
+                for c, col in AX_COLS.items():
+                    Fh = F[fc == col]
+                    loc = back(V[np.unique(Fh)], j) if len(Fh) else np.zeros((0, 3))
+                    e = np.eye(3)["xyz".index(c)]
+                    along = loc @ e
+                    perp = np.linalg.norm(loc - along[:, None] * e, axis=1)
+                    on = along[perp <= tol_s]
+                    sign = -1.0 if (c == "x" and kw["handedness"] == "left") else 1.0
+                    if not np.any(np.abs(on) <= tol_s):  # (the coloured faces reach down to the collapsed inner end of the shaft)
+                        why = f"the {c} arrow does not start at the sensor position"
+                        break
+                    on = on[np.abs(on) > tol_s]
+                    if len(on) == 0 or not np.all(sign * on > 0):
+                        why = f"the {c} arrow has no vertex (its apex) on the local {'-' if sign < 0 else '+'}{c} axis through the position"
+                        break
+                    Ls.append(float(np.max(sign * on)))
+                if why is None and max(Ls) - min(Ls) > 1e-9 * max(Ls):
+                    why = f"the three axes arrows have different lengths {Ls}"
+                if why is not None:
+                    bad("mapback:Sensor:axes", f"{why} (path index {j}, handedness {kw['handedness']})", {**rep, "path_index": j})
+                    break
+    return done
+
+
+def units_section(magpy, rng, bad, kinds):
+    """every SI prefix that get_unit_factor knows (read from magpylib._src.utility._UNIT_PREFIX at run time, '' = plain m, upper and lower
+    case letters are different prefixes: Mm is mega, mm is milli, Pm peta, pm pico, ...) plus d and c: one Cuboid per prefix of about the size
+    of the unit (numbers O(1) in the displayed unit), for some also a metre-sized one (numbers ~10^-power), shown with the explicit
+    units_length='<prefix>m'.  (i) the three axis titles are exactly '<axis> (<prefix>m)'; (ii) the 8 drawn corners divided by the EXPECTED
+    factor 10.0**(-power) (from the table, not from get_unit_factor) and mapped back through the pose are the cuboid's corners and vice versa,
+    to 1e-9 of the object's size / distance (pure rounding otherwise: one multiplication by the factor, one rotation, one translation)."""
+    from magpylib._src.utility import _UNIT_PREFIX
+
+    prefixes = [(p, k) for k, p in _UNIT_PREFIX.items()] + [("d", -1), ("c", -2)]
+    also_metre = set(rng.sample(range(len(prefixes)), 5))
+    done = 0
+    for idx, (p, power) in enumerate(prefixes):
+        for metre_sized in ([False, True] if idx in also_metre else [False]):
+            nps = np.random.default_rng(rng.randrange(2**31))
+            unit, s = f"{p}m", (1.0 if metre_sized else 10.0**power)
+            dim, position, o = nps.uniform(0.5, 2, 3) * s, nps.uniform(-3, 3, 3) * s, R.random(rng=nps)
+            cub = magpy.magnet.Cuboid(dimension=dim, polarization=(0, 0, 1), position=position, orientation=o)
+            inner = rng.random() < 0.3
+            rep = {"unit": unit, "power": power, "dimension": dim.tolist(), "position": position.tolist(), "quaternion": o.as_quat().tolist(), "in_collection": inner}
+            top = magpy.Collection(cub) if inner else cub
+            before = snap_obj(cub)
+            try:
+                fig = magpy.show(top, backend="plotly", return_fig=True, units_length=unit)
+            except Exception as e:  # noqa: BLE001  (no prefix of the table is refused on the checked tree; a refusal is a finding)
+                kinds[f"units:raised:{unit}"] = type(e).__name__
+                bad(f"units:{unit}", f"show(units_length={unit!r}) raised {type(e).__name__}: {str(e)[:120]}", rep)
+                continue
+            done += 1
+            kinds["units"] = kinds.get("units", 0) + 1
+            if metre_sized:
+                kinds["units:metre-sized"] = kinds.get("units:metre-sized", 0) + 1
+            if snap_obj(cub) != before:
+                bad("show-mutates:Cuboid", f"show(units_length={unit!r}) modified the object", rep)
+            titles = [getattr(fig.layout.scene, a + "axis").title.text for a in "xyz"]
+            if titles != [f"{a} ({unit})" for a in "xyz"]:
+                bad(f"units:{unit}", f"axis titles {titles} do not announce the requested length unit ({unit})", {**rep, "titles": titles})
+            V = used_vertices(mesh_parts(fig))
+            corners = np.array([[x, y, z] for x in (-1, 1) for y in (-1, 1) for z in (-1, 1)]) * dim / 2
+            loc = o.inv().apply(V / 10.0 ** (-power) - position)
+            size = float(max(np.abs(dim).max(), np.abs(position).max()))
+            err = max(far_from(corners, loc), far_from(loc, corners)) if len(V) else float("inf")
+            if len(V) != 8 or err > 1e-9 * size:
+                ratio = float(np.abs(V).max() / np.abs(o.apply(corners) + position).max()) if len(V) else float("nan")
+                # telling a wrong factor from a wrong pose: the 28 vertex-to-vertex distances do not depend on the pose; when they are the cuboid's
+                # (x expected factor, rel 1e-9) the unit factor was applied correctly and the body is merely misplaced
+                from scipy.spatial.distance import pdist
+                scale_ok = len(V) == 8 and np.allclose(np.sort(pdist(V)) / 10.0 ** (-power), np.sort(pdist(corners)), rtol=1e-9, atol=0)
+                bad(f"units-pose:{unit}" if scale_ok else f"units:{unit}",
+                    ("the drawn cuboid has the right size in the displayed unit but is not at its pose " if scale_ok else f"drawn coordinates are not metres x 1e{-power} ")
+                    + f"for units_length={unit!r} (drawn / metres = {ratio:.6g}, corners off by {err / size:.3g} of the size)",
+                    {**rep, "drawn_over_metres": ratio, "expected_factor": 10.0 ** (-power)})
+    return done
